@@ -23,6 +23,10 @@ pub struct Ch {
     pub manual: bool,
     /// the sender is dropped before the receiver is converted
     pub drop_before_convert: bool,
+    /// the stream is dropped right after the conversion, never polled (its channel keeps getting
+    /// messages): the other streams must not notice
+    #[serde(default)]
+    pub abandon: bool,
 }
 
 #[derive(Clone, Debug, Serialize, Deserialize)]
@@ -115,7 +119,8 @@ fn work(set: Vec<(usize, Ch, IpcSender<u32>, IpcReceiver<u32>)>) -> Result<(), S
         };
         e1::inproc_point();
         let st = rx.to_stream();
-        streams.push((i, c, tx, st));
+        // (an abandoned stream is dropped right here)
+        streams.push((i, c.clone(), tx, if c.abandon { None } else { Some(st) }));
     }
     let mut ready = Vec::new();
     for (i, c, tx, st) in streams {
@@ -129,6 +134,7 @@ fn work(set: Vec<(usize, Ch, IpcSender<u32>, IpcReceiver<u32>)>) -> Result<(), S
         ready.push((i, c, st));
     }
     for (i, c, st) in ready {
+        let Some(st) = st else { continue };
         e1::inproc_point();
         let got = consume(st, c.manual)?;
         let want: Vec<u32> = (0..c.pre + c.post).map(|s| i as u32 * 100 + s).collect();
@@ -205,7 +211,7 @@ fn many_tasks_body(n: usize) -> Result<(), String> {
                 let i = t * 2 + k;
                 let (tx, rx) = ipc::channel::<u32>().map_err(|e| e.to_string())?;
                 tx.send(i as u32 * 100).map_err(|e| e.to_string())?;
-                set.push((i, Ch { pre: 1, post: 1, by: 0, manual: k == 1, drop_before_convert: false }, tx, rx));
+                set.push((i, Ch { pre: 1, post: 1, by: 0, manual: k == 1, drop_before_convert: false, abandon: false }, tx, rx));
             }
             work(set)
         }));
@@ -232,12 +238,13 @@ pub fn scenarios(tier: Tier) -> Vec<Scenario> {
     }
     let mut add = |chans: Vec<Ch>, bound: u32| {
         let p = P { chans };
-        let name = format!("{:?}", p.chans.iter().map(|c| format!("pre{}/post{}/by{}{}{}", c.pre, c.post, c.by, if c.manual { "/manual" } else { "" }, if c.drop_before_convert { "/dropped-first" } else { "" })).collect::<Vec<_>>());
+        let name = format!("{:?}", p.chans.iter().map(|c| format!("pre{}/post{}/by{}{}{}{}", c.pre, c.post, c.by, if c.manual { "/manual" } else { "" }, if c.drop_before_convert { "/dropped-first" } else { "" }, if c.abandon { "/abandoned" } else { "" })).collect::<Vec<_>>());
         let mut cfg = sched_cfg();
         cfg.post_points = true;
         v.push(Scenario::new(name, cfg, bound, move || body(&p)));
     };
-    let c = |pre, post, by, manual, d| Ch { pre, post, by, manual, drop_before_convert: d };
+    let c = |pre, post, by, manual, d| Ch { pre, post, by, manual, drop_before_convert: d, abandon: false };
+    let ab = |pre, post, by| Ch { pre, post, by, manual: false, drop_before_convert: false, abandon: true };
     // bursts: many conversions in a row (their wake-ups coalesce in one wait of the routing
     // thread) and long backlogs (the consumer far behind the routing thread)
     let burst = |n: usize, manual: bool| -> Vec<Ch> { (0..n).map(|i| c(if i == n - 1 { 1 } else { 0 }, if i % 4 == 0 { 1 } else { 0 }, 0, manual, false)).collect() };
@@ -245,6 +252,9 @@ pub fn scenarios(tier: Tier) -> Vec<Scenario> {
     add(burst(if tier.is_quick() { 20 } else { 40 }, true), 0);
     add(vec![c(if tier.is_quick() { 40 } else { 80 }, 3, 0, false, false)], if tier.is_quick() { 0 } else { 1 });
     add(vec![c(2, 45, 0, true, false), c(40, 0, 1, false, true)], 0);
+    // an abandoned stream next to live ones
+    add(vec![ab(1, 1, 0), c(1, 1, 0, false, false)], 2);
+    add(vec![ab(2, 0, 1), c(0, 2, 0, true, false)], 2);
     if tier.is_quick() {
         add(vec![c(1, 1, 0, false, false)], 3);
         add(vec![c(0, 2, 0, true, false)], 3);
@@ -290,7 +300,7 @@ fn run_all(rep: &mut Report, tier: Tier) {
     rep.set("deviation_bound_max", json!(tot.max_bound));
     rep.set("evaluations", json!(tot.execs));
     rep.set("distinct_nontrivial", json!(tot.with_switch));
-    rep.set("rule", json!("one evaluation = one complete schedule (<= bound deviations; scheduling points before every system call / futex wait and after every transmission) of tasks that convert 1-2 receivers into streams (0-2 messages queued before conversion, 0-2 sent after, sender dropped before or after conversion), feed them and consume them with futures::executor::block_on or a hand-written poll loop with a parking waker, against the real routing thread; schedules are distinct by construction (the depth-first search never repeats a choice sequence) and a schedule counts as non-trivial when it contains at least one context switch; enumerated cases are distinct by construction"));
+    rep.set("rule", json!("one evaluation = one complete schedule (<= bound deviations; scheduling points before every system call / futex wait and after every transmission) of tasks that convert 1-2 receivers into streams (0-2 messages queued before conversion, 0-2 sent after, sender dropped before or after conversion; optionally a stream that is dropped unpolled right after its conversion while its channel keeps getting messages), feed them and consume them with futures::executor::block_on or a hand-written poll loop with a parking waker, against the real routing thread; schedules are distinct by construction (the depth-first search never repeats a choice sequence) and a schedule counts as non-trivial when it contains at least one context switch; enumerated cases are distinct by construction"));
     rep.assume("the routing thread is a process-global lazy: every execution is a fresh process, so it starts in each execution");
     rep.assume("user-space-only steps (futures mpsc, AtomicWaker) between scheduling points are atomic");
 }
